@@ -38,12 +38,36 @@ def build_tools():
                  cwd=os.path.join(VERIF, "translator"), env=GOENV)
     if rc != 0:
         raise RuntimeError("translator build failed:\n" + out)
+    rc, out = sh(["go", "build", "-o", os.path.join(BUILD, "factscan"), "./factscan"],
+                 cwd=os.path.join(VERIF, "translator"), env=GOENV)
+    if rc != 0:
+        raise RuntimeError("factscan build failed:\n" + out)
 
 
 def run_translator():
     rc, out = sh([os.path.join(BUILD, "translator"), REPO, os.path.join(LEAN, "WhatIs", "Gen"),
                   os.path.join(BUILD, "facts.json")], env=GOENV)
-    return rc == 0, out
+    if rc != 0:
+        return False, out
+    # type-aware structural facts (go/packages): merged into facts.json under scan.*
+    rc2, out2 = sh([os.path.join(BUILD, "factscan"), REPO, os.path.join(BUILD, "factscan.json")], env=GOENV)
+    if rc2 != 0:
+        return False, out + out2
+    try:
+        facts = json.load(open(os.path.join(BUILD, "facts.json")))
+        scan = json.load(open(os.path.join(BUILD, "factscan.json")))
+        def sites(k, pred=lambda x: True):
+            return sorted(f"{x['pkg']} {x['func']}: {x['what']}" for x in scan.get(k, []) if x.get("reachable") and pred(x))
+        facts["scan.mapRanges"] = sites("mapRanges")
+        facts["scan.formatsNonUTC"] = sorted(set(sites("formats", lambda x: "[UTC]" not in x["what"])))
+        facts["scan.globalWrites"] = sites("globalWrites")
+        facts["scan.envReads"] = sites("envReads")
+        facts["scan.panics"] = sites("panics")
+        facts["scan.makes"] = sites("makes")
+        json.dump(facts, open(os.path.join(BUILD, "facts.json"), "w"), indent=1, sort_keys=True)
+    except Exception as e:
+        return False, f"factscan merge failed: {e}"
+    return True, out + out2
 
 
 def theorem_at(path, line):
